@@ -283,6 +283,12 @@ func valueCorpus() []string {
 		"fn main() { let o = new { a: [1] }; let l = [o]; for x in l { x.a.push(2); } println(l, o); }",
 		"fn main() { let v = \"{\\\"a\\\":1}\".parse_json() as { a: int, b: ?int }; println(v.b); }",
 		"fn main() { let v = \"null\".parse_json() as int; println(v + 1); }",
+		// function literals: parameters, own locals, locals of the enclosing function, singleton parameters
+		"fn main() { let f = fn(x: int) -> int { let c = x * 2; c + 1 }; println(f(1), f(2)); }",
+		"fn main() { let a = 5; let b = 7; let f = fn(x: int) -> int { let c = x * 2; a + b + c }; println(f(1)); println(a, b); }",
+		"fn main() { let a = 5; let f = fn() -> int { a = a + 1; a }; println(f()); println(a); }",
+		"$S = { n: int };\nfn get(s: $S, k: int) -> int { s.n + k }\nfn main() { println(1 + get(2)); println([get(1), get(2)]); }",
+		"fn main() { let e = 1; try { throw(\"x\"); } catch e { println(e.message); } println(e); }",
 	)
 	return out
 }
